@@ -51,7 +51,7 @@ PROP = "C18"
 TARGETS_MODEL = ["PulserModel.Switch", "Proofs.Switch"]
 TARGETS = ["PulserModel.Generated.StrictParams", *TARGETS_MODEL, "Properties.C18"]
 N_SEQ = {"quick": 600, "thorough": 6000}
-VARIANTS = {"quick": 12, "thorough": 24}
+VARIANTS = {"quick": 10, "thorough": 24}
 
 TRUSTED_BASE = [
     "Lean 4.33 kernel; axioms allowed: propext, Classical.choice, Quot.sound (audited per theorem)",
@@ -1164,8 +1164,8 @@ def check(tier: str, seed: int) -> int:
         base_obs: dict = {}
         for edits in variants:
             new_spec = apply_edits(spec, edits)
-            # strict for every variant, non-strict for about half of them
-            for strict in ((True, False) if rng.random() < 0.5 else (True,)):
+            # strict for every variant, non-strict for about 40% of them
+            for strict in ((True, False) if rng.random() < 0.4 else (True,)):
                 case = dict(kind="device", device=spec, ops=ops, edits=list(edits), strict=strict)
                 res = check_device_switch(rs, new_spec, strict, edits, base_obs)
                 account(case, res, "generated")
